@@ -29,3 +29,7 @@ check('C18', 'fault_enumeration',
       'Every fault word up to length 3 (quick) / 4 (thorough; longer sampled, random up to 40, permanently-down URLs) over the fault alphabet is injected into the real Daemon object through a simulated HTTP session in virtual time, for every call kind, 1..3 URLs and two retry settings, with the world changing at every attempt; an offline checker over the attempt log decides result genuineness, positional alignment, error raising, fail-over discipline and block-file equality. "Eventually" is restated as: the call returns at the first fault-free attempt and never stays more than doublings+1 attempts on one URL.',
       'faults are raised by the simulated session using aiohttp\'s own exception classes; real sockets are not exercised; unbounded fault sequences out of reach',
       'fault-sequence enumeration with an offline attempt-log checker on the real Daemon class', 'DESIGN.md section 4 C18')
+check('C19', 'exploration',
+      'The real PeerManager.on_peers_subscribe is called on constructed peer populations (all verification ages incl. boundaries, bad flags, public/private/special v4/v6, hostnames valid/invalid, onion, shared buckets, own identities) for tor and non-tor requesters with repeated random draws under a shimmed clock; every advertised tuple is judged by an independent address-class table and hostname grammar, and bucket/onion bounds are recomputed independently. Peer.peers_from_features and on_add_peer are driven with generated JSON feature dictionaries (real getaddrinfo).',
+      'ipaddress literal parsing trusted; ambiguous hostnames (underscore, trailing dot, non-ASCII, upper-case LOCALHOST) counted but not judged; peer monitoring tasks stubbed so no connections are attempted',
+      'independent-table oracle over generated populations and feature dictionaries driving the real functions', 'DESIGN.md section 4 C19')
